@@ -43,21 +43,30 @@ func init() {
 	harnessAPI["nondetRune"] = func(ex *Exec, fr *frame, a []value) value { return ex.newNondet("i32", 32) }
 	harnessAPI["nondetInt64"] = func(ex *Exec, fr *frame, a []value) value { return ex.newNondet("i64", 64) }
 	harnessAPI["nondetInt"] = func(ex *Exec, fr *frame, a []value) value {
-		lo, hi := a[0].(uint64), a[1].(uint64)
 		v := ex.newNondet("i64", 64)
+		lo, loc := a[0].(uint64)
+		hi, hic := a[1].(uint64)
 		if t, ok := v.(*sym.Term); ok {
 			c := ex.ctx
-			if int64(lo) > int64(hi) {
-				panic(pathAbort{abortAssume, "nondetInt: empty range"})
+			if loc && hic {
+				if int64(lo) > int64(hi) {
+					panic(pathAbort{abortAssume, "nondetInt: empty range"})
+				}
+				if lo == hi {
+					ex.addPC(c.Eq(t, c.BV(lo, 64)))
+					return lo
+				}
+				ex.addPC(c.And(c.Cmp(sym.OpSle, c.BV(lo, 64), t), c.Cmp(sym.OpSle, t, c.BV(hi, 64))))
+				return t
 			}
-			if lo == hi {
-				ex.addPC(c.Eq(t, c.BV(lo, 64)))
-				return lo
-			}
-			ex.addPC(c.And(c.Cmp(sym.OpSle, c.BV(lo, 64), t), c.Cmp(sym.OpSle, t, c.BV(hi, 64))))
+			// symbolic bounds: an ordinary assumption
+			ex.assume(norm(c.And(c.Cmp(sym.OpSle, ex.termOf(a[0], 64), t), c.Cmp(sym.OpSle, t, ex.termOf(a[1], 64)))))
 			return t
 		}
 		u := v.(uint64)
+		if !loc || !hic {
+			panic("nondetInt: symbolic bounds in pinned mode")
+		}
 		if int64(u) < int64(lo) || int64(u) > int64(hi) {
 			panic(pathAbort{abortAssume, "nondetInt: pinned value out of range"})
 		}
